@@ -232,6 +232,7 @@ main(int argc, char *argv[])
 	char *explicit_list = NULL;
 	long nofile = 0;
 	int close_stdin = 0;
+	int close_stderr = 0;
 	char *line = NULL;
 	size_t cap = 0;
 	sim_seams_init(argv[3]);
@@ -260,6 +261,7 @@ main(int argc, char *argv[])
 			else if (!strcmp(k, "shortw_seed")) sim_cfg.shortw_seed = strtoull(v, NULL, 10);
 			else if (!strcmp(k, "shortw_pct")) sim_cfg.shortw_pct = atoi(v);
 			else if (!strcmp(k, "close_eintr_pct")) sim_cfg.close_eintr_pct = atoi(v);
+			else if (!strcmp(k, "sibling_rmdir_nth")) sim_cfg.sibling_rmdir_nth = atol(v);
 			else if (!strcmp(k, "readdir")) sim_cfg.readdir_seed = strtoull(v, NULL, 10);
 			else if (!strcmp(k, "sched_seed")) sched_seed = strtoull(v, NULL, 10);
 			else if (!strcmp(k, "strategy")) strategy = atoi(v);
@@ -267,6 +269,7 @@ main(int argc, char *argv[])
 			else if (!strcmp(k, "sched")) explicit_list = strdup(v);
 			else if (!strcmp(k, "nofile")) nofile = atol(v);
 			else if (!strcmp(k, "close_stdin")) close_stdin = atoi(v);
+			else if (!strcmp(k, "close_stderr")) close_stderr = atoi(v);
 			else { fprintf(stderr, "rtsim: unknown knob %s\n", k); return 2; }
 		} else if (strcmp(tok[0], "thread") == 0) {
 			int i = atoi(tok[1]);
@@ -301,6 +304,11 @@ main(int argc, char *argv[])
 	if (close_stdin) {
 		/* a daemon's environment: descriptor 0 is free, so the first file the library opens gets it */
 		close(0);
+	}
+	if (close_stderr) {
+		/* started with descriptor 2 closed: whatever the library prints as a warning goes to the
+		 * next file opened with that number */
+		close(2);
 	}
 	if (nofile > 0) {
 		/* a small descriptor table stands in for a long process life: whatever the library
